@@ -9,7 +9,8 @@
 // what each player has put in, updated from the action list only, is compared with the engine's
 // stacks / spent / pot after every action; at the end of the hand the payout is compared with
 // the heads-up rule (contested part to the stronger hand or split, the uncalled part back, a
-// folded player gets nothing).
+// folded player gets nothing). Hand order at showdown comes from `rpharness::poker::best5` (brute force
+// over 5-subsets, rules order), not from the engine's `Strength`.
 #[path = "../gamewalk.rs"]
 mod gamewalk;
 use gamewalk::*;
@@ -96,9 +97,9 @@ fn main() {
     let mut run = Run::new(&a.out);
     quiet_panics();
     let n_hist: usize = if a.thorough() { 600_000 } else { 80_000 };
-    let deals = make_deals(&mut rng, 64);
+    let deals = make_deals(&mut rng, 96);
     run.rule = format!(
-        "{n_hist} random histories of the real Game (5 play styles x legal() ∪ every raise size) over {} forced deals (crafted seat0-wins/seat1-wins/tie + random), state compared after every action, settlements at the end of every hand; a case = one visited betting state, non-trivial always (blinds are in), distinct by (pot, seats, ticker, street)",
+        "{n_hist} random histories of the real Game (5 play styles x legal() ∪ every raise size) over {} forced deals (crafted: seat0-wins/seat1-wins/tie, royal flush on the board / in one hand, straight flush vs straight flush, wheels, board-plays, kicker fights; + random), state compared after every action, settlements at the end of every hand; a case = one visited betting state, non-trivial always (blinds are in), distinct by (pot, seats, ticker, street)",
         deals.len()
     );
     for h in 0..n_hist {
@@ -115,7 +116,8 @@ fn main() {
             run.fail("hand-does-not-end", &op_end, "terminal within 400 actions", &turn_tok(last.turn()));
             continue;
         }
-        // end of the hand
+        // end of the hand: the engine's own strength order goes to the model (whose strength is
+        // abstract); the payout oracle uses the rules evaluator on the cards actually dealt
         let rk = ranks(last);
         let seats = last.verif_seats();
         let folded = [seats[0].0 == State::Folding, seats[1].0 == State::Folding];
@@ -129,13 +131,26 @@ fn main() {
             Some(v) => {
                 run.line(&op, &format!("{} {} {} {}", v[0].0, v[1].0, v[0].1, v[1].1));
                 run.spec_checked += 1;
-                let want = payout_oracle(paid, folded, rk);
+                let hole = |i: usize| bits(robopoker::cards::hand::Hand::from(seats[i].4));
+                let showdown = !folded[0] && !folded[1];
+                let rules = if showdown { rules_ranks(hole(0), hole(1), board_bits(last)) } else { (0, 0) };
+                if showdown && rules != rk {
+                    run.fail("strength-order", &op, &format!("rules order {rules:?}"), &format!("engine order {rk:?}"));
+                }
+                let want = payout_oracle(paid, folded, rules);
                 let got = [v[0].0, v[1].0];
                 let pot = last.pot() as i32;
                 if got != want || got[0] + got[1] != pot || v[0].1 + v[1].1 != 0 || v[0].1 != got[0] - paid[0] || v[1].1 != got[1] - paid[1] {
                     run.fail("payout", &op, &format!("rewards {want:?} (pot {pot}, zero-sum)"), &format!("rewards {got:?} pnl [{}, {}]", v[0].1, v[1].1));
                 }
-                let how = if folded[0] || folded[1] { "fold" } else if rk.0 == rk.1 { "showdown-tie" } else if rk.0 > rk.1 { "showdown-seat0" } else { "showdown-seat1" };
+                let how = if folded[0] || folded[1] { if rk.0 == rk.1 { "fold-with-equal-strengths" } else { "fold" } } else if rules.0 == rules.1 { "showdown-tie" } else if rules.0 > rules.1 { "showdown-seat0" } else { "showdown-seat1" };
+                if showdown {
+                    let top = rpharness::poker::best5(hole(0) | board_bits(last), is_shortdeck()).max(rpharness::poker::best5(hole(1) | board_bits(last), is_shortdeck()));
+                    run.count(&format!("showdown-best-category:{}", top.0));
+                    if top.0 == 8 && top.1[0] == 13 {
+                        run.count("showdown-royal-flush");
+                    }
+                }
                 run.count(&format!("end:{}:{}", street_name(last), how));
                 if seats[0].1 == 0 && seats[1].1 == 0 {
                     run.count("end:all-in-runout");
